@@ -37,6 +37,11 @@ def plan(ctx):
             sets += rnd.sample(big, min(len(big), 2 if not thorough else 8))
         for i, ch in enumerate(chunks(sets, 1)):
             obs.append(be_l1_ob(be, k, m, hd, ch, tag="l1rec", idx=i, timeout=1500))
+    # a shape with more parity than data fragments: more than k (but at most m) erasures are within tolerance
+    for be, k, m in [(RS, 2, 3)] + ([(RS, 3, 5), (ISAV, 2, 3)] if thorough else []):
+        sets = [s for s in esets(k + m, k + 1, m)]
+        for i, ch in enumerate(chunks(sets if thorough else sets[::2], 1)):
+            obs.append(be_l1_ob(be, k, m, m, ch, tag="l1recmk", idx=i, timeout=1500))
     # flat-XOR reconstruct through the adapter's op table: every erasure set below hd of one hd=4 table (every erased index
     # is reconstructed on its own in be_l1.c); rare patterns (two data + one parity whose only private parity is the lost
     # one) are easy to miss by sampling
